@@ -27,8 +27,14 @@ use std::{
     error::Error as StdError,
     ffi::CString,
     ptr,
-    sync::Mutex,
 };
+
+// With --cfg pathrs_verif the error table's mutex announces every lock
+// acquisition and release to the deterministic simulator (see capi/verif.rs).
+#[cfg(pathrs_verif)]
+use crate::capi::verif::Mutex;
+#[cfg(not(pathrs_verif))]
+use std::sync::Mutex;
 
 use libc::{c_char, c_int};
 use once_cell::sync::Lazy;
